@@ -138,3 +138,6 @@ Fixpoint gen_bytes_aux (n : nat) (x : N) : bytes :=
   | S n' => let x' := ((1103515245 * x + 12345) mod 2147483648)%N in b8 (x' / 65536) :: gen_bytes_aux n' x'
   end.
 Definition gen_bytes (seed : N) (n : nat) : bytes := gen_bytes_aux n seed.
+
+(* long byte strings are written by the harness as a list of short hex literals *)
+Definition hexs (l : list string) : bytes := flat_map hex l.
